@@ -567,6 +567,106 @@ def o5_get_shard(chk, prog, props=('C07',), only=None):
     chk.end(ob)
 
 
+@expectation('c07_admin_ban')
+def c07_admin_ban():
+    """Native: the real handle_admin on BAN / UNBAN commands over a registered pool (primary h0, replicas h1 h2): which servers are banned afterwards."""
+    def f(res):
+        for r in res:
+            if 'error' in r or 'panic' in r:
+                return False, 'native: %r' % (r,)
+            if sorted(r.get('banned_after', [])) != sorted(r.get('want', [])):
+                return True, 'native: after %r (banned before: %r) the banned servers are %r, required %r' % (r.get('commands'), r.get('before'), r.get('banned_after'), r.get('want'))
+            if r.get('duration') is not None:
+                new = [x for x in r.get('reasons', []) if int(x.split(':')[0]) not in r.get('before', [])]
+                if any(x.split(':', 1)[1] != 'AdminBan(%d)' % r['duration'] for x in new):
+                    return True, 'native: after %r the new ban is recorded as %r, required AdminBan(%d)' % (r.get('commands'), new, r['duration'])
+        return False, 'native: %r' % (res,)
+    return f
+
+
+ADMIN_BAN_CASES = [
+    # (command, banned before, banned after, AdminBan duration expected for newly banned, error reply expected)
+    ('BAN h1 30', [], [1], 30, False),
+    ('ban h2 7;', [1], [1, 2], 7, False),
+    ('BAN h1', [], [], None, True),
+    ('BAN h1 abc', [], [], None, True),
+    ('BAN h1 0', [], [], None, True),
+    ('BAN h1 -5', [], [], None, True),
+    ('BAN h0 30', [], [], None, False),          # the primary is never banned
+    ('BAN nohost 30', [2], [2], None, False),
+    ('UNBAN h1', [1, 2], [2], None, False),
+    ('unban h2;', [2], [], None, False),
+    ('UNBAN h1', [2], [2], None, False),
+    ('UNBAN', [1], [1], None, True),
+]
+
+
+def o6_admin_ban(chk, prog):
+    """The admin console's BAN / UNBAN: which servers handle_admin bans and un-bans, and for how long."""
+    from checks import fromconfig as FC
+    ob = chk.begin('O6-admin-ban', 'admin::handle_admin (real coroutine) on BAN <host> <seconds> / UNBAN <host> (valid, missing or non-numeric or non-positive duration, the primary\'s host, '
+                   'an unknown host, several spellings) over a registered pool of a primary and two replicas with a given ban list: exactly the named replica is banned, with '
+                   'reason AdminBan(<seconds>); the primary never is; UNBAN lifts exactly the named server\'s ban; a malformed command changes nothing and is answered with an error',
+                   {'cases': len(ADMIN_BAN_CASES)})
+    ha = prog.funcs.get('handle_admin')
+    if ha is None:
+        raise Inconclusive('cannot locate admin::handle_admin')
+    ip = chk.interp(prog, 'O6-admin-ban')
+    install_stats_noops(ip)
+    base = list(ip.overrides)
+
+    def harness(ip_):
+        ip_.overrides[:] = base
+        k = ip_.choose(len(ADMIN_BAN_CASES), 'admin_case')
+        cmd, before, after, dur, want_err = ADMIN_BAN_CASES[k]
+        addrs = [mk_addr(ip_, prog, i, r) for i, r in enumerate((ROLE_P, ROLE_R, ROLE_R))]
+        m = MapV('hashmap')
+        for i in before:
+            e, mt = ban_entry(ip_, prog, addrs[i], i)
+            ip_.assume(mt[0].v != 5)
+            m.entries.append(e)
+        pool, ps = mk_pool(ip_, prog, [addrs], [m], ban_time=BV(64, 60))
+        pm = FC.current_pools(ip_)
+        names = prog.src.structs['PoolIdentifier']
+        vals = {'db': rstring('db'), 'user': rstring('u')}
+        pm.entries.append([Agg([vals[n] for n in names], 'PoolIdentifier', list(names)), Cell(pool, 'pool')])
+        st = StreamV([], 'admin_client')
+        csm = Ptr(Cell(Agg([MapV('hashmap')], 'Lock'), 'csmap'))
+        qb = cmd.encode()
+        body = [BV(8, x) for x in b'Q' + (len(qb) + 5).to_bytes(4, 'big') + qb + b'\0']
+        try:
+            ip_.drive(ip_.call_function(ha, [Ptr(Cell(st, 'stream')), Seq(body, 'bytesmut'), csm]))
+        except Panic as p:
+            raise Inconclusive('handle_admin panic: ' + p.msg)
+        ob.nontrivial += 1
+        got = banned_ids(prog, m)
+        what = None
+        if got != sorted(after):
+            what = 'after %r (banned before: %r) the banned servers are %r, required %r' % (cmd, before, got, sorted(after))
+        elif dur is not None:
+            new = [e for e in m.entries if getf(prog, e[0], 'Address', 'id').v not in before]
+            for e in new:
+                reason = e[1].val.fields[0]
+                okr = isinstance(reason, EnumV) and decide(ip_, reason.discr.v == 5) and 'AdminBan' in reason.variants and \
+                    ip_.model_for(reason.variants['AdminBan'][0].z() != dur) is None
+                if not okr:
+                    what = 'after %r the new ban is recorded as %r, required AdminBan(%d)' % (cmd, reason, dur)
+        if what is None:
+            out = bytes(b.v for b in st.out if b.concrete)
+            if want_err and out[:1] != b'E':
+                what = 'the malformed command %r is not answered with an error' % (cmd,)
+            elif not want_err and not out.endswith(b'Z\x00\x00\x00\x05I'):
+                what = 'the command %r is not answered up to ReadyForQuery' % (cmd,)
+        if what:
+            chk.report(ob, 'C07/O6/admin-ban', 'admin console: ' + what, {'command': cmd, 'before': before},
+                       {'commands': [{'op': 'admin_ban', 'commands': [cmd], 'before': list(before), 'want': list(after), 'duration': dur}], 'expect': ['c07_admin_ban']})
+        if len(ob.samples) < 3:
+            ob.samples.append({'command': cmd, 'banned_before': list(before), 'banned_after': list(got)})
+    ip.explore(harness)
+    chk.absorb(ob, ip)
+    chk.end(ob)
+
+
 def _dispatch(chk, f, args):
     f(chk, *args)
 
@@ -579,10 +679,11 @@ def main(chk):
         'who gets banned, who gets tried next, and that a connection whose health check failed is never handed out. (O4) the banned-host lookup used by the admin BAN/UNBAN '
         'commands. (H, failover family) Client::handle on pools with replicas that fail or time out: the failing replica is banned, the primary never is, the next request '
         'avoids it. (O2-rebuild) a pool re-created by a reload has a ban list of its own, one empty slot per shard of the new definition -- bans are keyed by the addresses '
-        'of the pool that issued them.')
+        'of the pool that issued them. (O5) ConnectionPool::get on two shards never leaves the requested shard or role. (O6) THE ADMIN CONSOLE: admin::handle_admin from MIR on BAN <host> <seconds> / UNBAN <host> '
+        '(valid, malformed, the primary\'s host, unknown hosts): exactly the named replica is banned with AdminBan(<seconds>), the primary never, UNBAN lifts exactly that ban.')
     chk.assumptions += [
         'chrono::Utc::now / NaiveDateTime::timestamp modelled as symbolic non-decreasing seconds; parking_lot RwLock single-threaded',
-        'admin console command parsing and load-balancing fairness (rand shuffle modelled as an arbitrary permutation) are outside the claim',
+        'load-balancing fairness is outside the claim (rand shuffle modelled as an arbitrary permutation); the admin console is executed for concrete spellings of BAN / UNBAN (O6), not for arbitrary command text',
     ]
     prog = chk.program('on')
     tasks = [(o1_ban, (prog,))]
@@ -603,6 +704,7 @@ def main(chk):
     for layout in ((('a', 'a', 'b'),), (('a', 'a', 'b'), ('a', 'b', 'a'))):
         tasks.append((o4_host_lookup, (prog, layout)))
     tasks.append((o5_get_shard, (prog,)))
+    tasks.append((o6_admin_ban, (prog,)))
     chk.parallel(_dispatch, tasks)
     # bans are keyed by the addresses of the pool that issued them: a pool re-created by a reload starts with an empty ban list of its own shape
     # (the from_config rebuild obligation of C14, instantiated for this property)
